@@ -12,8 +12,8 @@ SUITES.append(Suite("prio1-det", prio.prio1_generate(0.0, 0.0), prio.prio1_proje
 SUITES.append(Suite("simple2", prio.simple2_generate(), prio.simple2_project, prio.monitor_simple2("C02"),
                     rule=prio.SIMPLE2_RULE, version="v2", impl_ints=False, batch_timeout=300))
 
-SUITES.append(Suite("simple1", prio.simple1_generate(None), None, prio.monitor_simple1("C02"),
-                    rule=prio.SIMPLE1_RULE, version="v1", impl_ints=False, batch_timeout=120, model=False))
+SUITES.append(Suite("simple1", prio.simple1_generate(None), prio.simple1_project, prio.monitor_simple1("C02"),
+                    rule=prio.SIMPLE1_RULE, version="v1", impl_ints=False, batch_timeout=120, variants=prio.simple1_variants))
 ASSUMPTIONS = [
     "model: the scheduling goroutine as a program-counter machine (Prio2.sched_step) over FIFO-list channels; the driver of Prio2Sim.v "
     "(run to a blocked state / settle to a fixpoint) is used only for the correspondence",
